@@ -78,6 +78,14 @@ pub fn check_windows(reg: Reg, snap: &VerifSnapshot, tx: &Rf, rx1: &Rf, rx2: &Rf
     Ok(nontrivial)
 }
 
+#[derive(Clone, Copy, Debug)]
+struct NetRx {
+    off: u8,
+    dr2: Option<u8>,
+    f2: Option<u32>,
+    delay_ms: u32,
+}
+
 pub fn judge(h: &History, recs: &[StepRec]) -> Result<u32, Failure> {
     let reg = Reg::from_name(h.cfg.region.name()).unwrap();
     let case = || h.json();
@@ -86,12 +94,21 @@ pub fn judge(h: &History, recs: &[StepRec]) -> Result<u32, Failure> {
     let mut dl_map: std::collections::BTreeMap<usize, u32> = std::collections::BTreeMap::new();
     let mut dl_known = !reg.fixed();
     let mut pending: Option<Vec<crate::props::c08::Req>> = None;
+    // RX1 offset / RX2 data rate / RX2 frequency / RX1 delay as the NETWORK knows them: changed only by
+    // requests the device acknowledged completely. None = not followed at the moment (initial state,
+    // after a join - C11 judges that -, after anything the model cannot follow): the device's own
+    // snapshot is taken at the next data uplink and followed from there.
+    let mut net_rx: Option<NetRx> = None;
+    // false once the reference model itself may have lost the session (radio fault, a frame whose size verdict is undefined)
+    let mut rx_follow = true;
     for r in recs {
         if r.outcome.is_panic() {
             break;
         }
         if r.trace.iter().any(|e| matches!(e, Ev::Fault(_))) {
             dl_known = false;
+            net_rx = None;
+            rx_follow = false;
             continue;
         }
         if matches!(r.step, Step::Join(_)) {
@@ -104,6 +121,11 @@ pub fn judge(h: &History, recs: &[StepRec]) -> Result<u32, Failure> {
                 dl_known = false;
             }
             pending = None;
+            net_rx = None;
+        }
+        if rx_follow && net_rx.is_none() && !matches!(r.step, Step::Join(_)) && r.txs.iter().any(|t| !t.join) {
+            let s = &r.snap_before;
+            net_rx = Some(NetRx { off: s.rx1_dr_offset, dr2: s.rx2_data_rate, f2: s.rx2_frequency, delay_ms: s.rx1_delay });
         }
         // answers carried by this uplink update the network's view before its windows are judged
         if let (true, Some(t)) = (pending.is_some(), r.txs.iter().find(|t| !t.join)) {
@@ -114,6 +136,9 @@ pub fn judge(h: &History, recs: &[StepRec]) -> Result<u32, Failure> {
             let exp = expected_answers(&reqs, reg.fixed());
             if ans.len() != exp.len() || ans.iter().zip(exp.iter()).any(|(a, e)| a.0 != e.0) {
                 dl_known = false;
+                // the device's state when this uplink was built is taken as the new starting point
+                let s = &r.snap_before;
+                net_rx = rx_follow.then_some(NetRx { off: s.rx1_dr_offset, dr2: s.rx2_data_rate, f2: s.rx2_frequency, delay_ms: s.rx1_delay });
             } else {
                 for (a, (_, qi)) in ans.iter().zip(exp.iter()) {
                     match &reqs[*qi] {
@@ -123,6 +148,18 @@ pub fn judge(h: &History, recs: &[StepRec]) -> Result<u32, Failure> {
                         Req::NewChannel { idx, .. } if a.1[0] & 3 == 3 => {
                             dl_map.remove(&(*idx as usize));
                         }
+                        Req::RxParam { off, dr2, freq } if a.1[0] & 7 == 7 => {
+                            if let Some(n) = net_rx.as_mut() {
+                                n.off = *off;
+                                n.dr2 = Some(*dr2);
+                                n.f2 = Some(*freq);
+                            }
+                        }
+                        Req::RxTiming(b) => {
+                            if let Some(n) = net_rx.as_mut() {
+                                n.delay_ms = (b & 0x0F).max(1) as u32 * 1000;
+                            }
+                        }
                         _ => {}
                     }
                 }
@@ -131,6 +168,12 @@ pub fn judge(h: &History, recs: &[StepRec]) -> Result<u32, Failure> {
         if r.deliveries.iter().any(|d| matches!(d.verdict, Verdict::SizeDontCare)) {
             // the reference does not decide whether this frame fits: the network's view is undefined from here
             dl_known = false;
+            net_rx = None;
+            rx_follow = false;
+        }
+        // MAC commands accepted outside RX1/RX2 (Class C) are not followed by this model
+        if r.deliveries.iter().any(|d| !matches!(d.slot, Slot::Rx1 | Slot::Rx2) && matches!(&d.verdict, Verdict::Accept { fopts, fport, plain, .. } if !fopts.is_empty() || (*fport == Some(0) && !plain.is_empty()))) {
+            net_rx = None;
         }
         if let Some(d) = r.deliveries.iter().find(|d| matches!(d.slot, Slot::Rx1 | Slot::Rx2) && matches!(d.verdict, Verdict::Accept { .. })) {
             if let Verdict::Accept { fopts, fport, plain, .. } = &d.verdict {
@@ -146,8 +189,22 @@ pub fn judge(h: &History, recs: &[StepRec]) -> Result<u32, Failure> {
         }
         let join = matches!(r.step, Step::Join(_));
         let tx = &r.txs[0];
-        let fail = |fp: String, d: String| Failure::new("rx-window", case(), format!("step {}.{}: {d}\n{}", r.index, r.sub, render(std::slice::from_ref(r), 1))).with_fp(fp);
-        let delay = if join { 5000 } else { r.snap_before.rx1_delay };
+        
+        // the parameters in force are the network's, where it is followed
+        let mut snap_inforce = r.snap_before;
+        let mut view_note = String::new();
+        if let (false, Some(n)) = (join, net_rx) {
+            let s = &r.snap_before;
+            if (s.rx1_dr_offset, s.rx2_data_rate, s.rx2_frequency, s.rx1_delay) != (n.off, n.dr2, n.f2, n.delay_ms) {
+                view_note = format!(" [parameters in force from the acknowledged requests: RX1DROffset {} RX2 DR {:?} RX2 frequency {:?} delay {} ms; the device holds {} / {:?} / {:?} / {} ms]", n.off, n.dr2, n.f2, n.delay_ms, s.rx1_dr_offset, s.rx2_data_rate, s.rx2_frequency, s.rx1_delay);
+            }
+            snap_inforce.rx1_dr_offset = n.off;
+            snap_inforce.rx2_data_rate = n.dr2;
+            snap_inforce.rx2_frequency = n.f2;
+            snap_inforce.rx1_delay = n.delay_ms;
+        }
+        let fail = |fp: String, d: String| Failure::new("rx-window", case(), format!("step {}.{}: {d}{view_note}\n{}", r.index, r.sub, render(&recs[..recs.iter().position(|x| std::ptr::eq(x, r)).unwrap() + 1], 4))).with_fp(fp);
+        let delay = if join { 5000 } else { snap_inforce.rx1_delay };
         let tx_ms = h.board.tx_ms;
         if h.cfg.front == FrontKind::Nb {
             let rxs: Vec<&Rf> = r.trace.iter().filter_map(|e| if let Ev::RxRequest { rf } = e { Some(rf) } else { None }).collect();
@@ -159,7 +216,7 @@ pub fn judge(h: &History, recs: &[StepRec]) -> Result<u32, Failure> {
             let rx2_default;
             let rx2 = if rxs.len() >= 2 { rxs[1] } else { rx2_default = None::<Rf>; let _ = &rx2_default; rxs[0] };
             if rxs.len() >= 2 {
-                match check_windows(reg, &r.snap_before, &tx.rf, rxs[0], rx2, join, dl_known.then_some(&dl_map)) {
+                match check_windows(reg, &snap_inforce, &tx.rf, rxs[0], rx2, join, dl_known.then_some(&dl_map)) {
                     Ok(n) => nt += n as u32,
                     Err((fp, d)) => return Err(fail(fp, d)),
                 }
@@ -184,7 +241,7 @@ pub fn judge(h: &History, recs: &[StepRec]) -> Result<u32, Failure> {
                 return Err(fail("no-rx1".into(), "no receive window was opened after the uplink".into()));
             }
             if singles.len() >= 2 {
-                match check_windows(reg, &r.snap_before, &tx.rf, singles[0].0, singles[1].0, join, dl_known.then_some(&dl_map)) {
+                match check_windows(reg, &snap_inforce, &tx.rf, singles[0].0, singles[1].0, join, dl_known.then_some(&dl_map)) {
                     Ok(n) => nt += n as u32,
                     Err((fp, d)) => return Err(fail(fp, d)),
                 }
@@ -284,7 +341,7 @@ pub fn run(ctx: &mut Ctx) {
     ctx.rule = "table part (exhaustive): 9 regions x every uplink data rate x every RX1 offset 0..7 (negotiated by JoinAccept DLSettings on OTAA and by RXParamSetupReq on ABP; offsets above the regional maximum are rejected and then irrelevant) x RX2 data-rate/frequency overrides x RxDelay 0..15 x board timings {0,10,50,200 ms} x nb/async/async+ClassC, each followed by uplinks whose windows are judged; in every reached state the hook enumerates the channel selector for all first-draw values 0..71 (join and data frames), so all 72 fixed-plan channels and every dynamic channel incl. DlChannelReq mappings are covered; plus proptest random histories. Oracle: refregion RX1 table / RX2 defaults / downlink frequency pairing, timing arithmetic. Non-trivial: offset != 0 or non-default RX2/delay/DL mapping or fixed-plan join on a 500 kHz channel".into();
     ctx.exhaustive = true;
     ctx.assumptions = vec![
-        "RX1 offset, RX2 overrides, RX1 delay and downlink-frequency mappings are read from the device snapshot taken before the uplink (C08/C11 judge that the snapshot follows the negotiation)".into(),
+        "parameters in force = the network's view: RX1 offset, RX2 overrides and RX1 delay start from the device snapshot at the first data uplink after activation/join (C11 judges the join) and from then on change only through RXParamSetupReq/RXTimingSetupReq that the device acknowledged completely (tracked from its answers with the reference codec); downlink-frequency pairings likewise from acknowledged DlChannelReq/NewChannelReq; after a radio fault, a frame whose size verdict is undefined, or MAC commands accepted outside RX1/RX2 the view is re-read from the device snapshot (or no longer followed)".into(),
         "nb window offset is a signed value added to the window start; window closing times are not judged; board lead time <= 200 ms".into(),
         "RX1 cells that differ between RP002 revisions (AS923/IN865 offsets 6,7 above DR5) are set-valued".into(),
     ];
